@@ -7,8 +7,12 @@ for line in open(sys.argv[1]).read().splitlines():
     if not m:
         continue
     sid, rest = m.group(1), m.group(2)
-    runs = [{"check": c, "exit": int(e), "signatures": sig.strip()}
-            for c, e, sig in re.findall(r'(C\d\d):exit=(\d+):(\S*(?: \S+)*?)(?= C\d\d:exit=|$)', rest)]
+    # one "<check>:exit=<n>:<signatures>" per check; signatures may contain blanks
+    runs = []
+    for part in re.split(r'\s+(?=C\d\d:exit=)', rest.strip()):
+        pm = re.match(r'^(C\d\d):exit=(\d+):(.*)$', part.strip())
+        if pm:
+            runs.append({"check": pm.group(1), "exit": int(pm.group(2)), "signatures": pm.group(3).strip()})
     if not runs:
         continue
     p = f'/verif/seeded/{sid}/meta.json'
